@@ -96,6 +96,7 @@ deriving DecidableEq, Repr, Inhabited
 
 inductive Err where
   | indexError | valueError
+  | protocol        -- ill-formed driver request (unbalanced nesting), never an implementation outcome
   | tooLarge        -- not an exception: logged error 'Number too large', `wellformed = False` (`value.py:578-595`)
 deriving DecidableEq, Repr, Inhabited
 
